@@ -256,7 +256,7 @@ def main():
         print('INCONCLUSIVE property=%s engine error:\n%s' % (prop, errors[0]['error']))
         return sys.exit(3)
 
-    agg = {'paths': 0, 'completed': 0, 'aborted': 0, 'queries': 0, 'checks': 0, 'proved': 0, 'solver_s': 0.0,
+    agg = {'paths': 0, 'completed': 0, 'aborted': 0, 'queries': 0, 'checks': 0, 'proved': 0, 'knownobl': 0, 'solver_s': 0.0,
            'nontrivial': 0, 'resyncs': 0}
     tags, cuts, incomplete = {}, set(), []
     failures, degraded, samples = [], [], []
@@ -264,7 +264,7 @@ def main():
     for r in results:
         s = r['stats']
         for k in agg:
-            agg[k] += s[k]
+            agg[k] += s.get(k, 0)
         for t, n in s['tags'].items():
             tags[t] = tags.get(t, 0) + n
         cuts.update(s['cuts'])
@@ -416,7 +416,7 @@ def main():
         'functions_encoded': fn_enc,
         'bounds': getattr(mod, 'BOUNDS', {}).get(tier),
         'jobs': len(jobs), 'subjobs': len(results), 'paths_completed': agg['completed'], 'paths_infeasible_or_assumed_away': agg['aborted'],
-        'obligations_checked': agg['checks'], 'obligations_proved': agg['proved'],
+        'obligations_checked': agg['checks'], 'obligations_proved': agg['proved'] - agg['knownobl'], 'obligations_refuted_by_listed_known_findings': agg['knownobl'],
         'solver_queries': agg['queries'], 'solver_s': round(agg['solver_s'], 2),
         'degraded_paths': len(degraded), 'degraded_concrete_ok': ndeg_ok,
         'degraded_reasons': sorted({d['reason'][:120] for d in degraded})[:12],
@@ -441,8 +441,10 @@ def main():
     # ---------------------------------------------------------------- verdict
     print('%s %s: %d jobs/%d subjobs, %d paths (%d completed), %d obligations (%d proved), %d queries, solver %.1fs, '
           'degraded %d, xval %d/%d ok, twins %d/%d, wall %.1fs'
-          % (prop, tier, len(jobs), len(results), agg['paths'], agg['completed'], agg['checks'], agg['proved'],
+          % (prop, tier, len(jobs), len(results), agg['paths'], agg['completed'], agg['checks'], agg['proved'] - agg['knownobl'],
              agg['queries'], agg['solver_s'], len(degraded), xv_n - xv_bad, xv_n, twin_ok, len(twinres), wall))
+    if agg['knownobl']:
+        print('NOTE %d obligation(s) are refuted by listed known findings (not counted as proved)' % agg['knownobl'])
     for kid, (k, c) in sorted(knownhits.items()):
         print('KNOWN-FINDING: property=%s %s: %s' % (prop, kid, k.get('what', '')))
     rc = 0
